@@ -40,7 +40,7 @@ func realMain() {
 			n, v := s.RunReal(*runs)
 			o.Runs += n
 			o.Timeouts, o.Compared, o.Conformed = e1lib.Timeouts, e1lib.Compared, e1lib.Conformed
-			if o.Timeouts >= 3 {
+			if o.Timeouts >= 3 || e1lib.Abandoned {
 				break // the machine is too busy for this auxiliary pass to be useful
 			}
 			if v != "" {
